@@ -245,6 +245,7 @@ func checkC03(c *Ctx, r *Report) {
 		undecidedf("no type sizes for the loaded configuration")
 	}
 	exactDurationRule(c, r)
+	stringAccessorRule(c, r)
 	r.Rule("R03a", "every lossy SSA numeric conversion in the root package is dominated by facts on the same operand that imply the destination range (strict against 2^63/2^64 for floats, NaN excluded by a true-edge fact)", 4)
 	r.Rule("R03b", "every multiplication producing a time.Duration from a non-constant operand is dominated by facts bounding the operand to MaxInt64/unit", 2)
 	r.Rule("R03c", "every reflect.Value.Convert whose receiver may hold a number is guarded by the false edge of OverflowInt/OverflowUint/OverflowFloat on a zero value of the same type with the same operand, or converts to a provably non-numeric type", 4)
@@ -744,4 +745,63 @@ func overflowEdgeCut(call *ssa.Call, operand, typ ssa.Value, sizes types.Sizes) 
 		}
 	})
 	return found
+}
+
+// stringAccessorRule (R03e): a number kept as text is converted by handing the stored text itself to strconv: a
+// string that does not parse is an error, and a string that parses denotes exactly the number stored. Any
+// rewriting of the text in front of the parser (cutting a fraction, trimming, replacing) makes some non-number
+// parse, or some number parse to another value.
+func stringAccessorRule(c *Ctx, r *Report) {
+	r.Rule("R03e", "cfgString.toInt / toUint / toFloat / toBool hand the stored text itself to strconv.Parse*, and what they return is the parser's result", 4)
+	strT := c.Named("", "cfgString")
+	for _, mname := range []string{"toInt", "toUint", "toFloat", "toBool"} {
+		fn := c.MethodImpl(types.NewPointer(strT), mname)
+		if fn == nil {
+			r.add("R03e", "ucfg.cfgString."+mname, "parses the stored text", "-", Undecided, true, "method not found")
+			continue
+		}
+		fn = declared(c, fn)
+		name := c.FnName(fn)
+		n := 0
+		for _, ci := range CallsIn(fn, false) {
+			g := ci.Common().StaticCallee()
+			if g == nil || g.Pkg == nil || g.Pkg.Pkg.Path() != "strconv" || !strings.HasPrefix(g.Name(), "Parse") {
+				continue
+			}
+			n++
+			arg := ci.Common().Args[0]
+			own := false
+			if l, ok := arg.(*ssa.UnOp); ok && l.Op == token.MUL {
+				if nt, f, ok := FieldOf(l.X); ok && nt == strT && f == "s" {
+					if fa, ok := l.X.(*ssa.FieldAddr); ok && fa.X == ssa.Value(fn.Params[0]) {
+						own = true
+					}
+				}
+			}
+			r.Check(own, "R03e", name, "parses the stored text", c.Pos(ci.Pos()), "strconv."+g.Name()+"(c.s, …)", "the text handed to strconv."+g.Name()+" is not the stored string itself ("+arg.String()+"): strings that are no number can be accepted, or a number written in another notation (exponent, hex float, dotted text) is read as a different value")
+		}
+		if n == 0 {
+			r.Bad("R03e", name, "parses the stored text", c.Pos(fn.Pos()), "no strconv.Parse* call: the string is not converted by the standard parser")
+		}
+		// the result is the parser's result
+		for _, ret := range Returns(fn) {
+			if len(ret.Results) != 2 {
+				continue
+			}
+			if k, isK := RetVal(ret, 1).(*ssa.Const); !isK || !k.IsNil() {
+				continue
+			}
+			fromParser := false
+			for _, s := range Sources(RetVal(ret, 0)) {
+				if ex, ok := s.(*ssa.Extract); ok && ex.Index == 0 {
+					if call, ok := ex.Tuple.(*ssa.Call); ok {
+						if g := call.Call.StaticCallee(); g != nil && g.Pkg != nil && g.Pkg.Pkg.Path() == "strconv" {
+							fromParser = true
+						}
+					}
+				}
+			}
+			r.Check(fromParser, "R03e", name, "returns the parsed value", c.Pos(ret.Pos()), "the success value is strconv's result", "a success return does not return the parser's result")
+		}
+	}
 }
